@@ -45,7 +45,7 @@ def meta_case(draw):
     many = draw(st.sampled_from([False, False, True]))  # two-digit patch ids (string vs numeric order)
     if draw(st.integers(0, 14)) == 0:
         # hundreds of patches (three-digit patch ids; counts around the widths of 8/16-bit indices)
-        scene = draw(gen.lattice_scene(draw(st.sampled_from([100, 127, 128, 129, 182, 255, 256, 257, 300]))))
+        scene = draw(gen.lattice_scene(draw(st.sampled_from([300, 257, 256, 255, 182, 129, 128, 127, 100]))))
     else:
         scene = draw(gen.scene_case(theta, edges, 1, min_patches=10 if many else 1, max_patches=14 if many else 6, max_per_patch=3 if many else 6))
     K = len(scene["centers"])
